@@ -137,6 +137,17 @@ def generate(rng, tier):
         if isinstance(files[f0], str) and not files[f0].startswith("\ufeff") and f0 not in linked:
             files[f0] = "\n fn  lead( ){ }\n" + files[f0]
             extra_roots = [root_arg]
+    elif k < 36:
+        # a module file whose own name ends in the extension the protocol uses for its scratch or backup file (F16's
+        # naming scheme seen from a single file)
+        rd = os.path.dirname(t.root)
+        own = os.path.join(rd, rng.choice(["p_own.tmp", "p_own.bk"]))
+        if own not in files:
+            files[own] = body(rng)
+            rt = files[t.root]
+            bom = "\ufeff" if rt.startswith("\ufeff") else ""
+            files[t.root] = bom + '#[path = "%s"]\nmod p_own;\n' % os.path.basename(own) + rt.lstrip("\ufeff")
+            srcs += [own]
     twin_first = bool(extra_roots) and k < 18 and rng.chance(40)
     extra_args = rng.choice([[], [], ["-q"], ["--config", "max_width=%d" % rng.choice([60, 80, 100])]])
     return {
@@ -232,6 +243,9 @@ def execute(case):
         if collide:
             v.probe("stem-collision")
         respelled = set(case.get("respelled") or [])
+        ownname = {f for f in R if f.endswith((".tmp", ".bk"))}
+        if ownname:
+            v.probe("own-name-is-scratch-name")
         if respelled:
             v.probe("file-declared-twice-respelled")
 
@@ -243,7 +257,7 @@ def execute(case):
             for f in srcs:
                 cur = core.read_rel(sc.root, f)
                 bk = core.read_rel(sc.root, _stem(f) + ".bk")
-                suffix = "|stem-collision" if f in collide else "|respelled-twice" if f in respelled else ""
+                suffix = "|stem-collision" if f in collide else "|respelled-twice" if f in respelled else "|own-name-is-scratch-name" if f in ownname else ""
                 if cur != orig[f] and bk != orig[f]:
                     v.add("C20:original-lost" + suffix, "%s: neither %s nor its .bk holds the original; %s" % (tag, f, det), file=f)
                 if cur is not None and cur not in (orig[f], fmt[f], fmt_alt.get(f, fmt[f])):
@@ -255,9 +269,10 @@ def execute(case):
                     v.add("C20:foreign-path-touched", "%s: %s changed but is not F/F.bk/F.tmp of a rewritten file; %s" % (tag, p, det), path=p)
             if success_expected:
                 if res.exit != 0:
-                    v.add("C20:unexpected-failure", "%s: exit %s, stderr=%r" % (det, res.status(), core.text_of(res.stderr)[:200]))
+                    v.add("C20:unexpected-failure" + ("|own-name-is-scratch-name" if ownname else ""), "%s: exit %s, stderr=%r" % (det, res.status(), core.text_of(res.stderr)[:200]))
+                    return  # what the files look like after a failure is judged by the invariants above
                 for f in R:
-                    suffix = "|stem-collision" if f in collide else "|respelled-twice" if f in respelled else ""
+                    suffix = "|stem-collision" if f in collide else "|respelled-twice" if f in respelled else "|own-name-is-scratch-name" if f in ownname else ""
                     if core.read_rel(sc.root, f) != fmt[f]:
                         v.add("C20:success-file-not-formatted" + suffix, "%s: %s" % (det, f), file=f)
                     if core.read_rel(sc.root, _stem(f) + ".bk") != orig[f]:
